@@ -109,6 +109,39 @@ void clm_refusal_case(const std::vector<uint32_t>& dataLens, Stats& st, const ch
 	uint64_t h = 77; for (auto d : dataLens) h = hmix(h, d); st.nt(h);
 }
 
+// the base name is the file name without its (last) extension, whatever characters it holds: dotted stems count in full
+void clm_stem_case(const std::string& stem, Stats& st) {
+	volgen::root(); volgen::mkdirs("%big/"); volgen::mkdirs("%o/");
+	std::string p = "%big/" + stem + ".wav"; auto h = wav_head(4); h.insert(h.end(), {1, 2, 3, 4}); write_file(p, h);
+	std::string out = "%o/stem.clm"; remove(out.c_str());
+	Out o = guarded([&] { Archive::ClmFile::CreateArchive(out, {p}); });
+	if (stem.size() <= 8) { V_CHECK(o == Out::Ok, "CLM creation refused the " << stem.size() << "-character name " << jstr(stem)); Archive::ClmFile c(out); V_CHECK(c.GetCount() == 1 && c.GetName(0) == stem, "name " << jstr(stem) << " stored as " << jstr(c.GetName(0))); }
+	else V_CHECK(o == Out::Err, "CLM creation accepted the " << stem.size() << "-character name " << jstr(stem) << " (the index field holds 8)");
+	remove(p.c_str()); remove(out.c_str());
+	st.cls(stem.size() <= 8 ? "clm_stem:fits" : "clm_stem:refused"); st.nt(fnv1a(stem.data(), stem.size()) ^ 0xC2);
+}
+
+// several frames whose count/list differences cancel: every frame is judged on its own
+void layer_multi_case(const std::vector<std::pair<unsigned, unsigned>>& frames, bool acrossAnimations, Stats& st) {
+	ArtFile art; art.unknownAnimationCount = 0;
+	bool allMatch = true;
+	Animation an{}; an.unknown = 1; an.unknown2 = 2;
+	for (auto& cl : frames) {
+		Animation::Frame fr{}; fr.layerMetadata.count = cl.first & 0x7F; fr.layerMetadata.bReadOptionalData = 0; fr.unknownBitfield.count = 0; fr.unknownBitfield.bReadOptionalData = 0;
+		fr.optional1 = fr.optional2 = fr.optional3 = fr.optional4 = 0;
+		for (unsigned i = 0; i < cl.second; ++i) { Animation::Frame::Layer l{}; l.bitmapIndex = uint16_t(i); fr.layers.push_back(l); }
+		if ((cl.first & 0x7F) != cl.second) allMatch = false;
+		an.frames.push_back(fr);
+		if (acrossAnimations) { art.animations.push_back(an); an.frames.clear(); }
+	}
+	if (!acrossAnimations) art.animations.push_back(an);
+	Stream::DynamicMemoryWriter w;
+	Out o = guarded([&] { art.Write(w); });
+	if (allMatch) V_CHECK(o == Out::Ok, "consistent frames refused");
+	else V_CHECK(o == Out::Err, "frames whose layer lists disagree with their 7-bit counts were written because the differences cancel (" << frames.size() << " frames, first " << frames[0].first << "/" << frames[0].second << ")");
+	st.cls(allMatch ? "layers_multi:match" : "layers_multi:refused");
+}
+
 void clm_name_case(unsigned len, Stats& st) {
 	volgen::root(); volgen::mkdirs("%big/"); volgen::mkdirs("%o/");
 	std::string p = "%big/" + std::string(len, 'k') + ".wav"; auto h = wav_head(4); h.insert(h.end(), {1, 2, 3, 4}); write_file(p, h);
@@ -163,7 +196,12 @@ void run_case(Tape& t, Stats& st) {
 		break; }
 	case 3: { std::vector<uint32_t> d; uint32_t each = t.pick<uint32_t>({0x60000000u, 0x7FFFFFF0u, 0x55555556u, 0xFFFFFF00u, 0x80000000u}); unsigned k = unsigned(0x100000000ull / each) + 1; for (unsigned i = 0; i < k && i < 8; ++i) d.push_back(each); if (t.flag()) d.insert(d.begin(), uint32_t(t.below(1000)));
 		clm_refusal_case(d, st, "generated"); break; }
-	default: clm_name_case(6 + unsigned(t.below(7)), st); break;
+	default: {
+		unsigned k = unsigned(t.below(3));
+		if (k == 0) clm_name_case(6 + unsigned(t.below(7)), st);
+		else if (k == 1) { std::string stem; unsigned n = 1 + unsigned(t.below(13)); for (unsigned i = 0; i < n; ++i) stem.push_back(t.below(4) == 0 ? '.' : char('a' + t.below(26))); if (stem == "." || stem == "..") stem += "x"; clm_stem_case(stem, st); }
+		else { unsigned c = unsigned(t.below(128)), d = 1 + unsigned(t.below(127)); if (c + d > 127) d = 127 - c; if (d == 0) { c = 3; d = 4; } layer_multi_case({{c, c + d}, {c + d, c}}, t.flag(), st); st.nt(hmix(c, d) ^ 0x2F); }
+		break; }
 	}
 }
 
@@ -178,6 +216,16 @@ void run_sweep(Stats& st) {
 		prefix_case<uint8_t>(n, st); prefix_case<int8_t>(n, st); prefix_case<uint16_t>(n, st); prefix_case<int16_t>(n, st); prefix_case<uint32_t>(n, st);
 	}
 	for (unsigned len = 7; len <= 10; ++len) if (sw("clm_name", len)) clm_name_case(len, st);
+	{ const char* stems[] = {"abcd.efg", "abcdefgh.x", "abc.defghi", "a.b.c.d.e", "a.b", "snd1.take2", "abcdefg.h", ".hidden", ".longername", "a..b", "12345678.9", "x.wav"};
+	  for (unsigned i = 0; i < sizeof stems / sizeof stems[0]; ++i) if (sw("clm_stem", i)) clm_stem_case(stems[i], st); }
+	// compensating frames: +d and -d in one file, same animation and different animations
+	for (unsigned c = 0; c < 128; c += 9) for (unsigned d : {1u, 2u, 5u, 64u, 127u}) for (unsigned across = 0; across < 2; ++across) {
+		if (c + d > 127) continue;
+		if (!sw("layers_cancel", c, d, across)) continue;
+		layer_multi_case({{c, c + d}, {c + d, c}}, across, st);
+		layer_multi_case({{c, c}, {c, c + d}, {c + d, c + d}, {c + d, c}}, across, st);
+		layer_multi_case({{c, c}, {c + d, c + d}}, across, st);
+	}
 	// VOL: member sizes at and beyond the block length field / 32-bit sizes; destination absent and pre-existing
 	for (int pre = 0; pre < 2; ++pre) {
 		for (uint64_t sz : {0x80000000ull, 0x80000001ull, 0xFFFFFFFFull, 0x100000000ull, 0x100000005ull}) { if (!sw("vol_member", sz, pre)) continue; vol_refusal_case({{{"a.txt", 10}, {"big.bin", sz}, {"c.txt", 3}}}, pre, st, "member_size"); }
